@@ -575,3 +575,36 @@ def nested_options(rng, recs, call):
     else:
         opts["merge_attributes"] = True
     return opts
+
+
+# -- workload class added in round 5 --------------------------------------------------------------------------------------
+# aliasing between the yielded features and the caller's arguments: the consumer edits every yielded feature in place
+def alias_list(rng):
+    """A feature_list of 3..8 features (so that mostly two and more gaps are yielded), every attrs entry a list."""
+    for _ in range(12):
+        feats = feature_list(rng)
+        if len(feats) >= 3:
+            break
+    return feats
+
+
+def alias_update(rng, feats):
+    """update_attributes of the aliasing class: 1..3 entries; the non-ID keys (keys the neighbours carry, or new ones) hold
+    lists of 1..3 values - several-valued in about 60% -, in 40% a one-valued ID comes on top."""
+    present = []
+    for r in feats:
+        for k, _ in r["attrs"]:
+            if k not in present and k != "ID":
+                present.append(k)
+    upd = {}
+    for _ in range(rng.choice([1, 1, 2, 3])):
+        if present and rng.random() < 0.5:
+            k = rng.choice(present)
+        else:
+            k = rng.choice([x for x in ADDED_KEYS if x not in present])
+        n = rng.choice([1, 2, 2, 3, 3])
+        vals = [numeric_value(rng) for _ in range(n)] if k == "exon_number" else rng.sample(WORDS + ["u1", "u2", "3"], n)
+        upd[k] = vals
+    if rng.random() < 0.4:
+        upd["ID"] = [rng.choice(["newid", "gap1", "7", "x-y"])]
+    return upd
